@@ -3,10 +3,10 @@
    (instance QS) and what the property theorems quantify over (instance RS). *)
 From Coq Require Import ZArith List Bool.
 Import ListNotations.
-From Manif Require Import Scalar Mat Consts Group SO2 SE2 SO3 SE3 Rn Generic.
+From Manif Require Import Scalar Mat Consts Group SO2 SE2 SO3 SE3 SE23 SGal3 Rn Generic.
 
 Inductive gid : Type :=
-| GSO2 | GSE2 | GSO3 | GSE3 | GRn (n : nat).
+| GSO2 | GSE2 | GSO3 | GSE3 | GSE23 | GSGal3 | GRn (n : nat).
 
 Inductive opcode : Type :=
 | OInverse | OLog | OCompose | OAct | OAdj | ORplus | OLplus | OPlus | ORminus | OLminus | OMinus
@@ -26,6 +26,8 @@ Fixpoint group_of (g : gid) : GroupOps F :=
   | GSE2 => SE2 F eps
   | GSO3 => SO3 F eps
   | GSE3 => SE3 F eps
+  | GSE23 => SE23 F eps
+  | GSGal3 => SGal3 F eps
   | GRn n => Rn F n
   end.
 
